@@ -64,12 +64,6 @@ theorem specIAct_not_enter (norm : String → String) {e : Ev} (h : isMethod e.n
 theorem ihAct_code (norm : String → String) (e : Ev) : ihAct Cfg.code norm e = ihAct Cfg.fixed norm e := by
   simp only [ihAct, cmpConst, keyOf, code_up.2.2.1, Cfg.fixed]
 
-theorem contains_map_any (x : String) (f : String → String) (l : List String) :
-    (l.map f).contains x = l.any (fun T => x == f T) := by
-  induction l with
-  | nil => rfl
-  | cons a rest ih => rw [List.map_cons, List.contains_cons, ih, List.any_cons]
-
 /-- **rule_inherited** -/
 theorem rule_inherited (norm : String → String) (hn : NormOK norm) (m : Method) (ha : AgreesI norm m = true) :
     ihRun Cfg.code norm m.evs = inheritedSpec norm m := by
@@ -223,21 +217,6 @@ theorem lint_sources (norm : String → String) (evs : List Ev) :
 /-! ## per-method independence of the whole response -/
 
 theorem code_resets : Cfg.code.uv.resets = true ∧ Cfg.code.up.resets = true ∧ Cfg.code.ihResets = true := by decide
-
-theorem lintAll_cons (cfg : Cfg) (norm : String → String) (h1 : cfg.uv.resets = true) (h2 : cfg.up.resets = true)
-    (h3 : cfg.ihResets = true) (pre : List Ev) (ms : List Method) :
-    (lintEvents cfg norm (pre ++ ms.flatMap Method.evs)).Perm
-      (lintEvents cfg norm pre ++ ms.flatMap (lintMethod cfg norm)) := by
-  induction ms generalizing pre with
-  | nil => simp
-  | cons m rest ih =>
-    simp only [List.flatMap_cons, Method.evs, List.cons_append]
-    refine (lintEvents_split cfg norm h1 h2 h3 pre m.hhead _).trans ?_
-    refine List.Perm.append_left _ ?_
-    have := ih (m.head :: m.body)
-    simp only [List.cons_append] at this
-    refine this.trans ?_
-    simp [lintMethod, Method.evs]
 
 /-- **lint_file** — the response for a file = the items of what precedes its first method,
     plus, for every method, the items of that method analysed alone (every list of visits is such
